@@ -219,7 +219,13 @@ CHECKS.update({
                 "beside the torn record, and what is then on disk (all later system calls executed on the byte-level file system with "
                 "the junk in place) opens to exactly the map the process holds (C20_continue_then_restart). That model is compared with the real "
                 "store on every sweep case in which the fault hit the data write of a set or delete (results, index, counters in the "
-                "running process, everything after the restart). Not modelled: the running process after a failed fsync or rollover "
+                "running process, everything after the restart). A put or delete whose FSYNC failed behind the completed append "
+                "(sync=always; model failed_fsync, Store/FaultFsync.v): the running process does not see the record, a restart at "
+                "that point reads it with no other key concerned, the repaired bookkeeping (fix 6ff1d59) keeps a statistics row for "
+                "every file that holds a record while the pinned one loses it, and the history of that finding computed in the "
+                "model resurrects a deleted key under the pinned bookkeeping only (C20_failed_fsync_*); failed_fsync is compared "
+                "with the real store on every sweep case whose fault hit such an fsync (results, index, counters, file bytes, "
+                "restart). Not proved: what a restart yields after the process went on behind a failed fsync or a failed rollover "
                 "behind a completed append, or after a merge pass that failed half-way (sweep only).",
         "design_ref": "DESIGN.md section 8, C20", "note": "Faults are all-or-nothing per call, one per run. The injector sees libc "
                 "calls on *.bitcask.* files. Theorems cover the id discipline, the restart half, and the in-process half for failed appends / creates; the other in-process faults are enumeration only.",
